@@ -118,6 +118,9 @@ def run(run: C.Run):
     if not proofs_ok and not run.violations:
         run.violation({"property": "C06", "kind": "proof obligation no longer checks", "failed": P.failed_obligations(run)},
                       nofail=True, tag="obligation")
+    from tools.lib import fuzz as Z
+    Z.run_stream(run, rng, 1500 if run.tier == "thorough" else 160, "C06",
+                 funcs=["argmax", "argmin", "nanargmax", "nanargmin", "first", "last", "nanfirst", "nanlast"])
     run.cov["rule"] = (
         "arg*/nanarg*/first/last/nanfirst/nanlast on dask input: all chunkings of axes of length <=5 (quick) / 7 (thorough) plus "
         "random cases <=12 elements with ties of the extreme and NaNs placed at positions b-1, b of chunk boundaries, size-1 "
